@@ -85,6 +85,11 @@ def curve_case(rep, spec, index, tmp):
     basis = rng.choice(["weight", "molar"])
     k = rng.randint(1, 7)
     comps = [gen.gen_composition(rng, mix, basis=basis, edge=0.02) for _ in range(k)]
+    if k >= 2 and rng.random() < 0.15:
+        comps[-1] = comps[0]  # a replicate measurement: the same composition (and below the same values) twice
+        replicate = True
+    else:
+        replicate = False
     t = rng.uniform(283, 373)
     how = rng.choice(["permeances", "fluxes", "ideal", "both"])
     comment = rng.choice([None, "plain", 'with, comma', 'with "quotes"', "semi;colon, 'single'", "  spaces  "])
@@ -100,6 +105,9 @@ def curve_case(rep, spec, index, tmp):
     perms = [(gen.permeance_in_units(gen.loguniform(rng, 1e-9, 1e3), units, mix.first_component),
               gen.permeance_in_units(gen.loguniform(rng, 1e-9, 1e3), units, mix.second_component)) for _ in comps]
     fluxes = [(gen.loguniform(rng, 1e-9, 1e3), gen.loguniform(rng, 1e-9, 1e3)) for _ in comps]
+    if replicate:
+        perms[-1], fluxes[-1] = perms[0], fluxes[0]
+        case["replicate_point"] = True
     try:
         if how == "permeances":
             curve = DiffusionCurve(mixture=mix, membrane_name="M 1", feed_temperature=t, feed_compositions=comps, permeances=perms, comments=comment)
